@@ -2,7 +2,10 @@ use std::hash::Hash;
 use std::sync::Arc;
 use std::time::Duration;
 
+#[cfg(not(cached_verif))]
 use dashmap::DashMap;
+#[cfg(cached_verif)]
+use crate::verif_rt::sync::dashmap::DashMap;
 
 use crate::cache::clock::ClockType;
 use crate::cache::stats::ConcurrentStatsCounter;
